@@ -104,6 +104,11 @@ pub enum Fault {
     StallAfterHeaders,
     /// the same after a fragment of the response body
     StallMidBody,
+    /// from this request on the collector never answers anything on this CONNECTION (no reset, no FIN,
+    /// socket open) while new connections work; it keeps reading what arrives
+    WedgeReading,
+    /// the same, and it stops reading the connection too
+    WedgeSilent,
 }
 
 impl Fault {
@@ -119,6 +124,7 @@ impl Fault {
             Fault::AckThenClose => "ack-then-close",
             Fault::StallAfterHeaders => "stall-after-headers",
             Fault::StallMidBody => "stall-mid-body",
+            Fault::WedgeReading | Fault::WedgeSilent => "wedged-connection",
         }
     }
 
@@ -133,6 +139,8 @@ impl Fault {
             Fault::AckThenClose => Decision::AckThenClose,
             Fault::StallAfterHeaders => Decision::StallAfterHeaders,
             Fault::StallMidBody => Decision::StallMidBody,
+            Fault::WedgeReading => Decision::WedgeConnection { keep_reading: true },
+            Fault::WedgeSilent => Decision::WedgeConnection { keep_reading: false },
         }
     }
 }
@@ -218,7 +226,7 @@ impl Scenario {
         self.streams
             .iter()
             .flatten()
-            .map(|s| s.faults.iter().filter(|f| matches!(f.fault, Fault::Stall | Fault::StallAfterHeaders | Fault::StallMidBody)).count() as u32)
+            .map(|s| s.faults.iter().filter(|f| matches!(f.fault, Fault::Stall | Fault::StallAfterHeaders | Fault::StallMidBody | Fault::WedgeReading | Fault::WedgeSilent)).count() as u32)
             .max()
             .unwrap_or(0)
     }
@@ -601,6 +609,8 @@ fn decision_label(d: &Decision, transport: Transport) -> &'static str {
         Decision::StallAfterHeaders => "http1-stall-after-headers",
         Decision::StallMidBody if transport == Transport::Grpc => "grpc-stall-mid-body",
         Decision::StallMidBody => "http1-stall-mid-body",
+        Decision::WedgeConnection { .. } if transport == Transport::Grpc => "grpc-wedged-connection",
+        Decision::WedgeConnection { .. } => "http1-wedged-connection",
         Decision::Hold(_) => "hold",
     }
 }
@@ -660,6 +670,9 @@ pub fn judge(sc: &Scenario, obs: &Observed, cx: &mut Cx) -> Result<Result<(), St
             if r.failed() {
                 any_failed = true;
                 cx.class(&format!("fault:{}", decision_label(&r.decision, r.transport)));
+                if let Decision::WedgeConnection { keep_reading } = r.decision {
+                    cx.class(if keep_reading { "wedge:still-reading" } else { "wedge:not-reading" });
+                }
             } else if r.decision == Decision::AckThenClose {
                 any_failed = true;
                 cx.class("fault:ack-then-close");
@@ -852,6 +865,20 @@ pub fn judge(sc: &Scenario, obs: &Observed, cx: &mut Cx) -> Result<Result<(), St
                 "failed-request-resent-with-different-events",
                 format!("request {} ({}) failed carrying {:?}; requests of the signal: {}", r.seq, decision_label(&r.decision, r.transport), ids.iter().map(|i| rel(*i)).collect::<Vec<_>>(), describe(log, sig)),
             )?;
+        }
+        // a connection on which a request went unanswered past the timeout is broken: what is sent
+        // afterwards must not come in on it again (the collector keeps logging streams of a wedged
+        // connection that it still reads)
+        if matches!(r.decision, Decision::WedgeConnection { .. }) {
+            if let Some(again) = later.iter().find(|q| q.conn == r.conn) {
+                cx.fail(
+                    "request-resent-on-wedged-connection",
+                    format!(
+                        "request {} got no answer on connection {} (wedged: open, silent), yet request {} of the signal arrived on that same connection; requests of the signal: {}",
+                        r.seq, r.conn, again.seq, describe(log, sig)
+                    ),
+                )?;
+            }
         }
         // (only faults that take the whole connection down; a stalled gRPC response loses its stream only)
         if r.outcome == Outcome::Dropped && matches!(r.decision, Decision::CloseBeforeRead | Decision::ReadThenClose | Decision::Stall) {
